@@ -2,7 +2,7 @@
 extracted from the real tasklane.go (DESIGN.md B.7). Ghost state is updated on extracted
 transitions; invariants are proved by one-step induction, witnesses/violations come from BMC."""
 from z3 import *
-from ts import parse_smt
+from ts import parse_smt, bvsum, count
 
 class TaskLaneSpec:
     def __init__(self, L, Q, N):
@@ -129,21 +129,21 @@ class TaskLaneSpec:
         canc = self.cancelled(m, s)
         for k in range(self.N):
             occ = m.occ(s, k)
-            stk = BV2Int(g['st%d' % k])
+            stk = ZeroExt(6, g['st%d' % k])
             f += [ULE(g['st%d' % k], 1),
                   Implies(Not(g['acc%d' % k]), And(occ == 0, stk == 0)),
-                  occ + stk <= 1,
+                  ULE(occ + stk, 1),
                   Implies(And(g['acc%d' % k], Not(canc)), occ + stk == 1),
                   Not(And(g['acc%d' % k], g['rej%d' % k])),
                   Implies(g['pan%d' % k], g['st%d' % k] == 1),
                   Implies(g['late%d' % k], And(canc, g['begun%d' % k], Not(g['acc%d' % k])))]
         # run = number of workers inside Start()
-        terms = []
+        conds = []
         for pi in range(len(m.procs)):
             if self.role(m, pi) == 'startWorker':
                 rl = self.worker_running_locs(m, pi)
-                terms.append(If(Or(*[s['pc'][pi] == l for l in rl]), 1, 0))
-        f.append(BV2Int(g['run']) == Sum(terms))
+                conds.append(Or(*[s['pc'][pi] == l for l in rl]))
+        f.append(g['run'] == count(conds))
         # the WaitGroup counts the lane goroutines that have not called Done yet; blockingTaskCnt counts
         # the queue goroutines between their +1 and -1
         for n, c in m.cells.items():
@@ -152,17 +152,18 @@ class TaskLaneSpec:
                 for pi in self.lane_procs(m):
                     p = m.procs[pi]
                     post = {t['to'] for t in p['trans'] if t['ev']['kind'] == 'wgdone'}
-                    alive.append(If(Or(*[s['pc'][pi] == l for l in post]), 0, 1))
-                f.append(BV2Int(s['cell'][n]) == Sum(alive))
+                    alive.append(Not(Or(*[s['pc'][pi] == l for l in post])))
+                f.append(s['cell'][n] == ZeroExt(s['cell'][n].size() - 8, count(alive)))
             if c['kind'] == 'atomic':
                 lo, hi = [], []
                 for pi in range(len(m.procs)):
                     if self.role(m, pi) == 'startQueue':
                         must, may = self.counter_locs(m, pi)
-                        lo.append(If(Or(*[s['pc'][pi] == l for l in must]), 1, 0) if must else IntVal(0))
-                        hi.append(If(Or(*[s['pc'][pi] == l for l in may]), 1, 0) if may else IntVal(0))
-                v = BV2Int(s['cell'][n])
-                f.append(And(Sum(lo) <= v, v <= Sum(hi)))
+                        lo.append(Or(*[s['pc'][pi] == l for l in must]) if must else BoolVal(False))
+                        hi.append(Or(*[s['pc'][pi] == l for l in may]) if may else BoolVal(False))
+                v = s['cell'][n]
+                ext = lambda x: ZeroExt(v.size() - 8, x)
+                f.append(And(ULE(ext(count(lo)), v), ULE(v, ext(count(hi)))))
         # exits happen only after cancellation
         for pi in self.lane_procs(m):
             p = m.procs[pi]
@@ -172,7 +173,74 @@ class TaskLaneSpec:
         f.append(Not(g['startafterwait']))
         f += self.location_facts(m, s)
         f += self.past_default_facts(m, s)
+        f += self.worker_facts(m, s)
+        f += self.status_facts(m, s)
         return And(*f)
+
+    def must_since(self, p, trans, gen, kill):
+        """locations at which, on every path, a gen-transition happened after the last kill-transition"""
+        val = {l: None for l in range(p['nlocs'])}
+        val[p['init']] = False
+        ch = True
+        while ch:
+            ch = False
+            for t in trans:
+                if val[t['from']] is None: continue
+                v = val[t['from']]
+                if kill(t['ev']): v = False
+                if gen(t['ev']): v = True
+                nv = v if val[t['to']] is None else (val[t['to']] and v)
+                if val[t['to']] is None or nv != val[t['to']]:
+                    val[t['to']] = nv; ch = True
+        return {l for l, v in val.items() if v}
+
+    def worker_facts(self, m, s):
+        """a worker inside Start() runs a task that was started once; between a panic and the write of
+        lastPanic it holds the token of a task that panicked; lastPanic is nil or a recorded panic value"""
+        f = []
+        g = s['g']
+        for pi, p in enumerate(m.procs):
+            if self.role(m, pi) != 'startWorker': continue
+            regs = {t['ev']['val']['reg'] for t in p['trans'] if t['ev']['kind'] == 'start_enter' and t['ev']['val']['kind'] == 'reg'}
+            for r in regs:
+                running = {t['from'] for t in p['trans'] if t['ev']['kind'] == 'start_exit' and t['ev']['val'].get('reg') == r}
+                rv = s['v'][pi][r]
+                for l in running:
+                    f.append(Implies(s['pc'][pi] == l, And(ULT(rv, self.N), m.sel([g['st%d' % k] for k in range(self.N)], rv) == 1)))
+                pan = self.must_since(p, p['trans'],
+                                      lambda ev, r=r: ev['kind'] == 'start_exit' and ev['outcome'] == 1 and ev['val'].get('reg') == r,
+                                      lambda ev, r=r: (ev['kind'] == 'start_enter') or (ev['kind'] == 'select' and ev['outcome'] >= 0 and ev['cases'][ev['outcome']].get('res') == r))
+                for l in pan:
+                    f.append(Implies(s['pc'][pi] == l, And(ULT(rv, self.N), m.sel([g['pan%d' % k] for k in range(self.N)], rv))))
+        for n, c in m.cells.items():
+            if c['w'] == 0 and any(t['ev']['kind'] == 'store' and t['ev']['cell'] == n and t['ev']['val']['kind'] == 'pval' for p in m.procs for t in p['trans']):
+                v = s['cell'][n]
+                f.append(Or(v == 0, *[And(v == k + 1, g['pan%d' % k]) for k in range(self.N)]))
+        return f
+
+    def status_facts(self, m, s):
+        """values read by Status(): a channel length is at most the capacity, the counter at most laneSize,
+        the last-panic slot holds nil or a recorded panic value (all stable under later steps)"""
+        f = []
+        g = s['g']
+        for pi, p in enumerate(m.procs):
+            for t in p['trans']:
+                ev = t['ev']
+                if ev['kind'] not in ('len', 'atomic', 'load') or not ev.get('res'): continue
+                if ev['kind'] == 'atomic' and (self.role(m, pi) != 'status' or ev['op'] != 'load'): continue
+                if ev['kind'] == 'load' and m.cells[ev['cell']]['w'] != 0: continue
+                r = ev['res']
+                locs = self.must_since(p, p['trans'], lambda e2, r=r: e2.get('res') == r and e2['kind'] == ev['kind'], lambda e2: False)
+                rv = s['v'][pi][r]
+                for l in locs:
+                    if ev['kind'] == 'len':
+                        f.append(Implies(s['pc'][pi] == l, ULE(rv, m.chans[ev['chan']]['cap'])))
+                    elif ev['kind'] == 'atomic':
+                        f.append(Implies(s['pc'][pi] == l, ULE(rv, self.L)))
+                    else:
+                        if any(t2['ev']['kind'] == 'store' and t2['ev']['cell'] == ev['cell'] and t2['ev']['val']['kind'] == 'pval' for q in m.procs for t2 in q['trans']):
+                            f.append(Implies(s['pc'][pi] == l, Or(rv == 0, *[And(rv == k + 1, g['pan%d' % k]) for k in range(self.N)])))
+        return f
 
     def past_default_facts(self, m, s):
         """must-analysis: at a location all of whose paths since `call k` took the `default` of a non-blocking
